@@ -140,6 +140,9 @@ type table struct {
 	// lengthwire.go
 	lenWires []lenWire
 
+	// formcraft.go
+	formCases []formCase
+
 	// LZW table-state bodies (generator shared with C08)
 	lzwStates []c08.LZWStateCase
 }
@@ -387,6 +390,22 @@ func buildTable(seeds []*Seed, thorough bool) (*table, error) {
 	t.dims["length_wiring_targets"] = append(append([]string{}, lwTargetNames...), "node j (any j, itself included)")
 	t.dims["length_wiring_places"] = lwPlaceNames
 	t.dims["length_wiring_space"] = "holders S1, S2 (object streams) and n stream nodes; every assignment for n = 1; n = 2: every assignment of the nodes and of S1 (thorough: and of S2); thorough n = 3: every assignment of the nodes (object streams direct)"
+	// crafted catalog-level shared structure: the interactive form (formcraft.go)
+	t.formCases = formCases(thorough)
+	t.groups = append(t.groups, group{seed: -1, kind: "craft-form", n: len(t.formCases)})
+	var fvn []string
+	for _, v := range formValues {
+		n := v.name
+		if v.indirectOnly {
+			n += " (indirect only)"
+		}
+		fvn = append(fvn, n)
+	}
+	t.dims["form_acroform_values"] = append([]string{"no /AcroForm entry"}, fvn...)
+	t.dims["form_acroform_indirection"] = []string{"direct in the catalog", "reference"}
+	t.dims["form_page_annotation_kinds"] = formAnnotKinds
+	t.dims["form_pages"] = fmt.Sprintf("1..%d pages, every assignment of an annotation kind to every page", formMaxPages(thorough))
+	t.dims["form_widget_flavours"] = formFlavours
 	// crafted cross-reference level structures (xrefcraft.go); cheap, and early in the
 	// table so that a capped run on a slow machine has still explored them
 	if err := t.addXrefCrafted(thorough); err != nil {
@@ -559,6 +578,10 @@ func (t *table) mutant(idx int) (data []byte, mu Mut, trivial bool, err error) {
 		if g.kind == "craft-lzwstate" {
 			c := t.lzwStates[k]
 			return buildLZWStateFile(c.EarlyChange, c.Body()), Mut{Seed: "crafted", Kind: g.kind, Index: k, Desc: "crafted: " + c.String()}, false, nil
+		}
+		if g.kind == "craft-form" {
+			c := t.formCases[k]
+			return c.build(), Mut{Seed: "crafted", Kind: g.kind, Index: k, Desc: "crafted: " + c.String()}, false, nil
 		}
 		if g.kind == "len-wire" {
 			c := t.lenWires[k]
